@@ -503,7 +503,7 @@ func Gen(seed uint64, tier string) *Config {
 		c.M = 1 + r.IntN(8) // keep most quick histories cheap for the reference
 	}
 	n := 4 + r.IntN(13)
-	long := r.IntN(40) == 0 // a few long histories with many blocks per call: counters, tables built lazily, ...
+	long := r.IntN(60) == 0 // a few long histories with many blocks per call: counters, tables built lazily, ...
 	if long {
 		n = 20 + r.IntN(30)
 		c.M = 1 + r.IntN(3)
